@@ -163,18 +163,37 @@ def _assigned_locals(fn: ast.AST) -> set[str]:
     return out
 
 
+_ALIAS_FN: list = [None]  # the function whose single-definition locals may alias self.<attr> (set by check())
+
+
+def _attr_or_alias(e: ast.AST) -> str | None:
+    a = _self_attr(e)
+    if a:
+        return a
+    fn = _ALIAS_FN[0]
+    if isinstance(e, ast.Name) and fn is not None:
+        from .common import single_defs
+
+        for scope in fn if isinstance(fn, list) else [fn]:
+            d = single_defs(scope).get(e.id)
+            if d is not None and _self_attr(d):
+                return _self_attr(d)
+    return None
+
+
 def _comp_binding(comp: Any, name: str) -> tuple[str, str] | None:
-    """For a comprehension variable: ('self.<attr>', 'key'|'value') when it iterates self.<attr>.items()/.values()/keys()/itself."""
+    """For a comprehension variable: ('self.<attr>', 'key'|'value') when it iterates self.<attr>.items()/.values()/keys()/itself
+    (or a local that is a plain alias of self.<attr>)."""
     if comp is None:
         return None
     for g in comp.generators:
         it = g.iter
         base = role_k = None
-        if isinstance(it, ast.Call) and isinstance(it.func, ast.Attribute) and _self_attr(it.func.value) and not it.args:
-            base = _self_attr(it.func.value)
+        if isinstance(it, ast.Call) and isinstance(it.func, ast.Attribute) and _attr_or_alias(it.func.value) and not it.args:
+            base = _attr_or_alias(it.func.value)
             kind = it.func.attr
-        elif _self_attr(it):
-            base, kind = _self_attr(it), "keys"
+        elif _attr_or_alias(it):
+            base, kind = _attr_or_alias(it), "keys"
         else:
             continue
         t = g.target
@@ -226,8 +245,27 @@ def _elem_source(fn: ast.AST, e: ast.expr, M: str, L: str, depth: int = 4) -> st
         from .common import single_defs
 
         d = single_defs(fn).get(e.id)
-        if d is not None:
+        if d is not None and not (isinstance(d, (ast.List, ast.Tuple)) and not d.elts):
             return _elem_source(fn, d, M, L, depth - 1)
+        # a list filled by `.append(x)` only: what is appended
+        apps = [c for c in ast.walk(fn) if isinstance(c, ast.Call) and isinstance(c.func, ast.Attribute) and c.func.attr in ("append", "add") and isinstance(c.func.value, ast.Name) and c.func.value.id == e.id and c.args]
+        if apps and d is not None:
+            srcs0 = [_elem_source(fn, c.args[0], M, L, depth - 1) for c in apps]
+            if all(x == srcs0[0] for x in srcs0) and srcs0[0] != "other":
+                return srcs0[0]
+        # a parameter of a private helper of the class: what every call site in the class passes for it
+        if isinstance(fn, (ast.FunctionDef, ast.AsyncFunctionDef)):
+            params = [a.arg for a in fn.args.posonlyargs + fn.args.args if a.arg not in ("self", "cls")]
+            if e.id in params:
+                idx = params.index(e.id)
+                srcs = []
+                for caller in _ALIAS_FN[0] or []:
+                    for c in ast.walk(caller):
+                        if isinstance(c, ast.Call) and isinstance(c.func, ast.Attribute) and c.func.attr == fn.name and isinstance(c.func.value, ast.Name) and c.func.value.id in ("self", "cls"):
+                            arg = c.args[idx] if idx < len(c.args) else next((k.value for k in c.keywords if k.arg == e.id), None)
+                            srcs.append(_elem_source(caller, arg, M, L, depth - 1) if arg is not None else "other")
+                if srcs and all(x == srcs[0] for x in srcs) and srcs[0] != "other":
+                    return srcs[0]
         return "other"
     if isinstance(e, ast.Call) and norm(e.func) in ("max", "min", "next", "iter", "sorted", "list", "tuple", "set", "reversed") and e.args:
         return _elem_source(fn, e.args[0], M, L, depth - 1)
@@ -320,6 +358,7 @@ def check(ctx: Ctx) -> list[RuleResult]:
     methods = [f for f in repo.funcs.values() if f.qualname.startswith(fl.fullname + ".") and f.parent is None]
     view = repo.func(f"{FL}.faultlog")
     M, L = _discover_attrs(view)
+    _ALIAS_FN[0] = [m.node for m in methods]
     init = repo.func(f"{FL}.__init__")
 
     # ------------------------------------------------------------------------------------------------------------------
@@ -751,9 +790,26 @@ def check(ctx: Ctx) -> list[RuleResult]:
         blk = getattr(st, "parent", None)
         ends = isinstance(blk, ast.If) and st in blk.body and any(isinstance(x, ast.Break) or isinstance(x, ast.Return) for x in blk.body[blk.body.index(st):])
         null_const = "000000B0000000000000000000007FFFFF7000000000"
-        tested = isinstance(blk, ast.If) and null_const in norm(expand(gf.node, blk.test)) and edge_implies(expand(gf.node, blk.test), True, ast.parse(f"pkt.payload == '{null_const}'", mode="eval").body)
+        def _lit(t: ast.expr) -> ast.expr:
+            """the test with every sub-expression that folds to the null payload replaced by that literal"""
+            class _R(ast.NodeTransformer):
+                def visit(self, node):  # type: ignore[override]
+                    if isinstance(node, (ast.Name, ast.Attribute)):
+                        try:
+                            v = ctx.consts.eval_in(gf, node)
+                        except Exception:  # noqa: BLE001
+                            v = None
+                        if v == null_const:
+                            return ast.Constant(value=null_const)
+                    return self.generic_visit(node)
+            import copy as _copy
+
+            t2 = ast.parse(norm(t), mode="eval").body
+            return _R().visit(t2)
+
+        tested = isinstance(blk, ast.If) and edge_implies(_lit(expand(gf.node, blk.test)), True, ast.parse(f"pkt.payload == '{null_const}'", mode="eval").body)
         plain = [c for c in ast.walk(lp) if isinstance(c, ast.Call) and isinstance(c.func, ast.Attribute) and c.func.attr == pm.name and isinstance(blk, ast.If) and not any(c is y for x in blk.body for y in ast.walk(x))]
-        plain_guarded = all(any(edge_implies(expand(gf.node, t), tv, ast.parse(f"pkt.payload != '{null_const}'", mode="eval").body) for t, tv in facts_at(_stmt_of(c))) for c in plain)
+        plain_guarded = all(any(edge_implies(_lit(expand(gf.node, t)), tv, ast.parse(f"pkt.payload != '{null_const}'", mode="eval").body) for t, tv in facts_at(_stmt_of(c))) for c in plain)
         if ends and tested and plain_guarded:
             r4.ok({"null reply": "index restored by the helper, processed, loop ends", "other replies": "processed only where the payload is known not to be the null entry"})
         else:
@@ -821,13 +877,33 @@ def check(ctx: Ctx) -> list[RuleResult]:
     (a, b), = reads
     # frame surgery: X._frame[:A] + idx + X._frame[B:]
     surg = []
-    for n in own_nodes(helper.node):
+    for n in [x for g_ in [helper] + list(helper.nested.values()) for x in own_nodes(g_.node)]:
         if isinstance(n, ast.BinOp) and isinstance(n.op, ast.Add) and isinstance(n.left, ast.BinOp) and isinstance(n.left.op, ast.Add):
             l, m, r = n.left.left, n.left.right, n.right
-            if isinstance(l, ast.Subscript) and isinstance(r, ast.Subscript) and isinstance(l.slice, ast.Slice) and isinstance(r.slice, ast.Slice) and "_frame" in norm(l.value) and "_frame" in norm(r.value):
+            if isinstance(l, ast.Subscript) and isinstance(r, ast.Subscript) and isinstance(l.slice, ast.Slice) and isinstance(r.slice, ast.Slice) and norm(l.value) == norm(r.value) and "frame" in norm(l.value).lower():
                 A = ctx.consts.eval_in(helper, l.slice.upper) if l.slice.upper is not None else None
                 B = ctx.consts.eval_in(helper, r.slice.lower) if r.slice.lower is not None else None
                 surg.append((n, A, B, m))
+    if not surg:
+        # the same text built another way (join, format, f-string): read it off the string template
+        for g_ in [helper] + list(helper.nested.values()):
+            for n in own_nodes(g_.node):
+                v = n.value if isinstance(n, (ast.Return, ast.Assign)) and getattr(n, "value", None) is not None else None
+                if v is None:
+                    continue
+                parts = str_template(g_.node, v)
+                for i3 in range(len(parts) - 2):
+                    (k1, t1), (_k2, _t2), (k3, t3) = parts[i3 : i3 + 3]
+                    if k1 == "lit" or k3 == "lit":
+                        continue
+                    try:
+                        e1, e3 = ast.parse(t1.split("!")[0], mode="eval").body, ast.parse(t3.split("!")[0], mode="eval").body
+                    except SyntaxError:
+                        continue
+                    if isinstance(e1, ast.Subscript) and isinstance(e3, ast.Subscript) and isinstance(e1.slice, ast.Slice) and isinstance(e3.slice, ast.Slice) and norm(e1.value) == norm(e3.value) and "frame" in norm(e1.value).lower() and e1.slice.upper is not None and e3.slice.lower is not None:
+                        A = ctx.consts.eval_in(helper, e1.slice.upper) if not isinstance(e1.slice.upper, ast.Constant) else e1.slice.upper.value
+                        B = ctx.consts.eval_in(helper, e3.slice.lower) if not isinstance(e3.slice.lower, ast.Constant) else e3.slice.lower.value
+                        surg.append((v, A, B, None))
     if not surg:
         raise AnalysisError("_hack_pkt_idx: the frame rewrite `frame[:A] + idx + frame[B:]` was not found")
     for n, A, B, _m in surg:
@@ -838,7 +914,7 @@ def check(ctx: Ctx) -> list[RuleResult]:
         else:
             r6.fail(f"{helper.short}:frame-columns", helper.loc(n), f"the helper rewrites frame columns {A}:{B}, but the payload starts at column {pay_col} and parser_0418 reads the log index at payload[{a}:{b}] (= frame {pay_col + a}:{pay_col + b})")
     # payload template: literal prefix of length a, then the index
-    tmpls = [n for n in own_nodes(helper.node) if isinstance(n, ast.Assign) and len(n.targets) == 1 and isinstance(n.targets[0], ast.Attribute) and n.targets[0].attr == "payload"]
+    tmpls = [n for g_ in [helper] + list(helper.nested.values()) for n in own_nodes(g_.node) if isinstance(n, ast.Assign) and len(n.targets) == 1 and isinstance(n.targets[0], ast.Attribute) and n.targets[0].attr == "payload"]
     if not tmpls:
         raise AnalysisError("_hack_pkt_idx: the payload rewrite was not found")
     for n in tmpls:
@@ -848,6 +924,13 @@ def check(ctx: Ctx) -> list[RuleResult]:
         pre = 0
         hole = None
         for kind, txt in t:
+            if kind != "lit" and hole is None:
+                try:  # a named constant is a literal too
+                    cv = ctx.consts.eval_in(helper, ast.parse(txt.split(":")[0], mode="eval").body)
+                except Exception:  # noqa: BLE001
+                    cv = None
+                if isinstance(cv, str):
+                    kind, txt = "lit", cv
             if kind == "lit" and hole is None:
                 pre += len(txt)
             elif hole is None:
